@@ -39,7 +39,8 @@ use deb822_lossless::{FromDeb822, FromDeb822Paragraph, ToDeb822, ToDeb822Paragra
 use std::path::Path;
 
 fn deserialize_file_list(text: &str) -> Result<Vec<String>, String> {
-    Ok(text.split('\n').map(|x| x.to_string()).collect())
+    // a whitespace-separated list of patterns: several may share a line
+    Ok(text.split_whitespace().map(|x| x.to_string()).collect())
 }
 
 fn serialize_file_list(files: &[String]) -> String {
